@@ -7,9 +7,10 @@ programs regenerated from /repo (`Crv.Generated.sys`).
 
   lock check wf|consistent|ordered|noSelfAcquire          → ok | fail
   lock lockset <field name>                                → ok | fail      (some lock class guards every conflicting access)
-  lock admits <prog> <lock> <r|w> <same|other> <blocks|returns> → yes | no
+  lock admits <prog> <lock> <r|w> <same|otherEntry|otherChecker> <blocks|returns> → yes | no
       a thread running <prog> alone while the environment holds <lock> in the given mode on the entry the
-      thread works on (`same`) or on another entry (`other`): can it block on that lock / can it return?
+      thread may work on (`same`), on another entry of the same checker, or of another checker instance:
+      can it block on that lock / can it return?
   lock nesting                                             → held>requested pairs, sorted
 -/
 namespace Crv.Driver.Lock
@@ -32,8 +33,10 @@ def conflicts (l0 : Nat) (m0 : Mode) (n : Node) : Bool :=
   | .acq l m => l == l0 && (m0 == .w || m == .w)
   | _ => false
 
-def admits (P : Prog) (l0 : Nat) (m0 : Mode) (same : Bool) (observed : String) : Option Bool :=
-  let relevant := same || sys.lscope l0 != .ent
+/-- `rel`: 0 = the thread works on the entry whose lock is held (or may pick it), 1 = same checker but
+never that entry, 2 = another checker instance. -/
+def admits (P : Prog) (l0 : Nat) (m0 : Mode) (rel : Nat) (observed : String) : Option Bool :=
+  let relevant := rel == 0 || (rel == 1 && sys.lscope l0 != .ent) || (rel == 2 && sys.lscope l0 == .glob)
   let confl : Node → Bool := fun n => relevant && conflicts l0 m0 n
   match observed with
   | "blocks" => some (P.pathTo (fun _ => false) confl).isSome
@@ -54,7 +57,8 @@ def step (s : State) (ws : List String) : State × String :=
     match idxOf? progNames p, idxOf? lockNames l with
     | some pi, some li =>
       let mode? : Option Mode := if m = "r" then some .r else if m = "w" then some .w else none
-      let same? : Option Bool := if e = "same" then some true else if e = "other" then some false else none
+      let same? : Option Nat := if e = "same" then some 0 else if e = "otherEntry" then some 1
+        else if e = "otherChecker" then some 2 else none
       match sys.progs[pi]?, mode?, same? with
       | some P, some m0, some same =>
         (match admits P li m0 same obs with
